@@ -287,6 +287,20 @@ def run(index: RepoIndex, rep) -> None:
             inner = list(args[0].args) + [k.value for k in args[0].keywords]
             return len(inner) == 1 and src(inner[0]) == sp
         return None
+    # the seed reaches the constructor as given: a rebinding of the parameter replaces it on
+    # some path (`if not isinstance(seed, int): seed = None` drops numpy integer seeds)
+    rebinds = [d for d in wmk.defs.get(sp, []) if d[0] in ('value', 'aug', 'unpack')]
+    for d in rebinds:
+        v = d[1] if d[0] == 'value' else None
+        if isinstance(v, ast.Constant):
+            rep.violation('C02.R1', RNG, 'make_rng', getattr(v, 'lineno', mk.node.lineno),
+                          f'{sp} = {src(v)}',
+                          f'make_rng replaces its seed by `{src(v)}` when '
+                          f'`{show(strip_iter(d[3]))[:100]}`: the generator then does not depend '
+                          f'on the seed that was given (same seed, different trajectories)')
+        else:
+            raise AnalysisError(f'make_rng: the seed parameter is rebound '
+                                f'(`{src(v) if v is not None else sp}`) before it is used')
     verdicts = [(_seeded(wmk.expand(e.value)) if e.value is not None else False, e)
                 for e in rets]
     if not rets or any(v is None for v, _ in verdicts):
